@@ -403,7 +403,7 @@ impl RLBuilder {
         if len <= 0 {
             return;
         }
-        if start == self.len() {
+        if start == self.len() && self.run.1 > 0 {
             self.len += len;
             self.ones += len;
             self.run.1 += len;
